@@ -18,6 +18,16 @@ get_contraction_indices (the enumeration of "all unique" multicontractions, whic
   rejected arguments; for swappable=() the oracle is the docstring: every element a sorted list of
   disjoint pairs x<y, no unordered pairing twice, k!/((k-2m)! m! 2^m) of them, and every ordering of
   a listed pairing contracts a random tensor image (k <= 4) to the same image.
+extras (check_extras; Model/C05Extras.lean, Properties/C05Extras.lean): KroneckerDeltaSymbol.get,
+  get_kronecker_delta_image, GeometricImage.fill / zeros / activation_function / __eq__ and tensor_name
+  against the model (driver ops c05.kronecker_symbol, c05.kronecker_delta, c05.fill, c05.zeros,
+  c05.activation, c05.img_eq, c05.tensor_name), exactly on integer data; oracle on the real code for
+  g in B_2 / sampled B_3: the even-order delta image is fixed by g, g.fill(c) == fill(g.c) and
+  g.zeros == zeros on the transported extents, f(g.A) == g.f(A) for any f on scalar images and odd f
+  on pseudo-scalar images, (A == B) == (g.A == g.B), normalize(g.A) == g.normalize(A) (1e-5).  The
+  odd-order delta and a non-odd f on a pseudo-scalar image are NOT invariant / equivariant (Lean
+  counterexample theorems); they are outside the operations of property C05 and only counted in the
+  notes.
 """
 from __future__ import annotations
 
@@ -759,6 +769,278 @@ def check_dtypes(ctx: Ctx, geom, jnp):
                                             "float32 leaf with the same values", case)
 
 
+# ------------------------------------------------------------------------------------------------
+# constructors and pixel-wise helpers outside the expression language (Model/C05Extras.lean)
+
+EXTRA_SHAPES = {2: [(2, 3), (3, 2), (1, 4), (3, 3)], 3: [(2, 3, 2), (1, 2, 3), (2, 2, 2)]}
+ACT_FNS = {  # name -> (python function on jnp arrays, is odd)
+    "identity": (lambda x: x, True),
+    "negate": (lambda x: -x, True),
+    "cube": (lambda x: x * x * x, True),
+    "square": (lambda x: x * x, False),
+    "relu": (lambda x: x * (x > 0), False),
+    "abs": (lambda x: abs(x), False),
+}
+
+
+def _gimg_view(G):
+    """(dims, k, parity, is_torus, integer data or None) of a real GeometricImage"""
+    return (tuple(int(v) for v in G.spatial_dims), int(G.k), int(G.parity), tuple(bool(b) for b in G.is_torus),
+            to_int(np.asarray(G.data)))
+
+
+def _model_view(r):
+    img = unarr(r["image"])
+    return (tuple(int(v) for v in r["dims"]), int(r["k"]), int(r["parity"]), tuple(bool(b) for b in r["torus"]), img)
+
+
+def _same(a, b):
+    return a[:4] == b[:4] and a[4] is not None and b[4] is not None and a[4].shape == b[4].shape \
+        and np.array_equal(a[4], b[4])
+
+
+def _act_tensor(c, d, parity, g):
+    """g . c for a bare tensor c (a one-pixel image)"""
+    c = np.asarray(c)
+    return refs.act(c.reshape((1,) * d + c.shape), d, parity, g).reshape(c.shape)
+
+
+def check_extras(ctx: Ctx, geom, jnp):
+    """KroneckerDeltaSymbol / get_kronecker_delta_image, GeometricImage.fill / zeros / activation_function / __eq__ /
+    normalize, tensor_name: code vs model (exact, integer data) and invariance / equivariance on the real code"""
+    from ginjax.geometric.constants import KroneckerDeltaSymbol
+    from ginjax.geometric.geometric_image import get_kronecker_delta_image
+
+    rng = ctx.rng
+    quick = ctx.tier == "quick"
+    odd_delta = []
+    # --- Kronecker delta ------------------------------------------------------------------------
+    for D in (2, 3):
+        gs = group_subset(ctx, D)
+        for k in (2, 3, 4):
+            case = {"family": "kronecker_delta", "D": D, "k": k}
+            ctx.case(("kron", D, k), True, sample=case if (D, k) == (2, 2) else None)
+            ctx.hist("extras", "kronecker_delta")
+            sym = np.asarray(KroneckerDeltaSymbol.get(D, k)).astype(np.int64)
+            mine = unarr(ctx.driver.call("c05.kronecker_symbol", d=D, k=k))
+            if mine.shape != sym.shape or not np.array_equal(mine, sym):
+                ctx.violation("correspondence", "KroneckerDeltaSymbol.get(D, k) differs from the model", case)
+            for N in (((1, 3) if D == 2 else (2,)) if quick else (1, 2, 3)):
+                img = get_kronecker_delta_image(N, D, k)
+                rv = _gimg_view(img)
+                mv = _model_view(ctx.driver.call("c05.kronecker_delta", d=D, k=k, N=N))
+                if not _same(rv, mv):
+                    ctx.violation("correspondence", "get_kronecker_delta_image differs from the model", dict(case, N=N))
+                # oracle: for even k it is an invariant (declared parity 0) tensor image under all of B_d
+                for g in gs:
+                    out = _gimg_view(img.times_group_element(np.asarray(g)))
+                    fixed = _same(out, rv)
+                    if k % 2 == 0 and not fixed:
+                        ctx.violation("oracle", "the Kronecker delta image of even order is not fixed by g",
+                                      dict(case, N=N, g=mat_list(g)))
+                    if k % 2 == 1 and not fixed:
+                        odd_delta.append([D, k, N, mat_list(g)])
+                    # the real action agrees with the reference action either way
+                    if out[4] is None or not np.array_equal(out[4], refs.act(rv[4], D, 0, g)):
+                        ctx.violation("oracle", "times_group_element of the Kronecker delta image differs from the "
+                                                "reference action", dict(case, N=N, g=mat_list(g)))
+        for bad in ((D, 1), (D, 0)):
+            raised = False
+            try:
+                KroneckerDeltaSymbol.get(*bad)
+            except AssertionError:
+                raised = True
+            try:
+                ctx.driver.call("c05.kronecker_symbol", d=bad[0], k=bad[1])
+                mraised = False
+            except DriverReject:
+                mraised = True
+            ctx.case(("kron-reject",) + bad, False)
+            if raised != mraised:
+                ctx.violation("correspondence", "KroneckerDeltaSymbol.get: code and model disagree on rejection",
+                              {"D": bad[0], "k": bad[1], "code_raised": raised, "model_rejected": mraised})
+    # documented, not a violation: Lean theorem kroneckerDelta_odd_not_invariant (the code's own TODO)
+    ctx.notes["kronecker_delta_odd_order_not_invariant_examples"] = odd_delta[:3]
+    ctx.notes["kronecker_delta_odd_order_not_invariant_count"] = len(odd_delta)
+
+    # --- fill / zeros ---------------------------------------------------------------------------
+    for rep in range(4 if quick else 40):
+        D = 2 if rep % 2 == 0 else 3
+        gs = group_subset(ctx, D)
+        dims = EXTRA_SHAPES[D][int(rng.integers(len(EXTRA_SHAPES[D])))]
+        k = int(rng.integers(0, 4 if D == 2 else 3))
+        parity = int(rng.integers(0, 4))
+        torus = tuple(bool(b) for b in rng.integers(0, 2, size=D))
+        c = rng.integers(-4, 5, size=(D,) * k)
+        fill_arg = float(c) if (k == 0 and rep % 4 < 2) else jnp.array(c, dtype=jnp.float32)
+        case = {"family": "fill", "D": D, "dims": list(dims), "k": k, "parity": parity, "torus": list(torus),
+                "fill": jarr(c), "fill_is_python_float": isinstance(fill_arg, float)}
+        ctx.case(("fill", D, dims, k, parity, torus, c.tobytes().hex()), bool(np.any(c != 0)) and len(set(dims)) > 1,
+                 sample=case if rep == 0 else None)
+        ctx.hist("extras", "fill")
+        F = geom.GeometricImage.fill(dims, parity, D, fill_arg, torus)
+        rv = _gimg_view(F)
+        mv = _model_view(ctx.driver.call("c05.fill", d=D, dims=list(dims), parity=parity, torus=list(torus), fill=jarr(c)))
+        if not _same(rv, mv):
+            ctx.violation("correspondence", "GeometricImage.fill differs from the model", case)
+        Z = geom.GeometricImage.zeros(dims, k, parity, D, torus)
+        zv = _gimg_view(Z)
+        mz = _model_view(ctx.driver.call("c05.zeros", d=D, dims=list(dims), k=k, parity=parity, torus=list(torus)))
+        if not _same(zv, mz):
+            ctx.violation("correspondence", "GeometricImage.zeros differs from the model", case)
+        for g in gs:
+            gnp = np.asarray(g)
+            ndims = refs.rotated_dims(g, dims)
+            ntor = tuple(refs.transport(g, torus))
+            gc = _act_tensor(c, D, parity % 2, g)
+            want = _gimg_view(geom.GeometricImage.fill(ndims, parity, D, jnp.array(gc, dtype=jnp.float32), ntor))
+            got = _gimg_view(F.times_group_element(gnp))
+            if not _same(got, want):
+                ctx.violation("oracle", "g . fill(c) != fill(g . c) on the transported extents",
+                              dict(case, g=mat_list(g), got=None if got[4] is None else jarr(got[4]), want=jarr(want[4])))
+            if quick and g is not gs[0] and g is not gs[-1]:
+                continue
+            wantz = _gimg_view(geom.GeometricImage.zeros(ndims, k, parity, D, ntor))
+            gotz = _gimg_view(Z.times_group_element(gnp))
+            if not _same(gotz, wantz):
+                ctx.violation("oracle", "g . zeros != zeros on the transported extents", dict(case, g=mat_list(g)))
+
+    # --- activation_function --------------------------------------------------------------------
+    nonodd_pseudo = []
+    for rep in range(6 if quick else 40):
+        D = 2 if rep % 2 == 0 else 3
+        gs = group_subset(ctx, D)
+        dims = EXTRA_SHAPES[D][int(rng.integers(len(EXTRA_SHAPES[D])))]
+        parity = rep % 3 % 2 if rep < 4 else int(rng.integers(0, 2))
+        torus = tuple(bool(b) for b in rng.integers(0, 2, size=D))
+        data = rng.integers(-5, 6, size=dims)
+        lf = {"data": data, "parity": parity, "torus": torus}
+        A = geom.GeometricImage(jnp.array(data, dtype=jnp.float32), parity, D, torus)
+        for name, (fn, is_odd) in ACT_FNS.items():
+            case = {"family": "activation", "D": D, "dims": list(dims), "parity": parity, "torus": list(torus),
+                    "fn": name, "image": jarr(data)}
+            ctx.case(("act", D, dims, parity, name, data.tobytes().hex()[:64]), bool(np.any(data < 0) and np.any(data > 0)),
+                     sample=case if (rep == 0 and name == "relu") else None)
+            ctx.hist("extras", f"activation:{name}:p{parity}")
+            out = A.activation_function(fn)
+            rv = _gimg_view(out)
+            mv = _model_view(ctx.driver.call("c05.activation", d=D, leaf=leaves_json([lf])[0], fn=name))
+            if not _same(rv, mv):
+                ctx.violation("correspondence", "activation_function differs from the model", case)
+            for g in gs:
+                gA = make_gleaves(geom, jnp, D, [lf], g)[0]
+                got = _gimg_view(gA.activation_function(fn))
+                want = (refs.rotated_dims(g, dims), 0, rv[2], tuple(refs.transport(g, torus)),
+                        refs.act(rv[4], D, rv[2], g))
+                if _same(got, want):
+                    continue
+                if parity == 0 or is_odd:
+                    # theorems activation_scalar_equivariant / activation_pseudoscalar_equivariant_of_odd
+                    ctx.violation("oracle", "f(g . A) != g . f(A) for a pixel-wise function on a scalar image "
+                                            "(or an odd function on a pseudo-scalar image)", dict(case, g=mat_list(g)))
+                else:
+                    nonodd_pseudo.append([name, D, mat_list(g)])
+    # not an operation of property C05 and documented by activation_pseudoscalar_not_equivariant_relu
+    ctx.notes["activation_nonodd_on_pseudoscalar_not_equivariant_count"] = len(nonodd_pseudo)
+    ctx.notes["activation_nonodd_on_pseudoscalar_not_equivariant_example"] = nonodd_pseudo[:2]
+    # the assertion k == 0
+    for D in (2, 3):
+        data = rng.integers(-3, 4, size=(2,) * D + (D,))
+        lf = {"data": data, "parity": 0, "torus": (True,) * D}
+        V = geom.GeometricImage(jnp.array(data, dtype=jnp.float32), 0, D)
+        ctx.case(("act-reject", D), False)
+        try:
+            V.activation_function(lambda x: x)
+            raised = False
+        except AssertionError:
+            raised = True
+        try:
+            ctx.driver.call("c05.activation", d=D, leaf=leaves_json([lf])[0], fn="identity")
+            mraised = False
+        except DriverReject:
+            mraised = True
+        if raised != mraised:
+            ctx.violation("correspondence", "activation_function on a vector image: code and model disagree on rejection",
+                          {"D": D, "code_raised": raised, "model_rejected": mraised})
+
+    # --- __eq__ ---------------------------------------------------------------------------------
+    for rep in range(4 if quick else 40):
+        D = 2 if rep % 2 == 0 else 3
+        gs = group_subset(ctx, D)
+        if quick:
+            gs = [gs[i] for i in rng.choice(len(gs), size=3, replace=False)]
+        dims = EXTRA_SHAPES[D][int(rng.integers(len(EXTRA_SHAPES[D])))]
+        k = int(rng.integers(0, 3))
+        parity = int(rng.integers(0, 2))
+        torus = tuple(bool(b) for b in rng.integers(0, 2, size=D))
+        data = rng.integers(-3, 4, size=dims + (D,) * k)
+        a = {"data": data, "parity": parity, "torus": torus}
+        variants = {"same": dict(a)}
+        d2 = data.copy()
+        d2[tuple(int(rng.integers(n)) for n in d2.shape)] += 1
+        variants["one entry differs"] = dict(a, data=d2)
+        variants["parity differs"] = dict(a, parity=1 - parity)
+        variants["flags differ"] = dict(a, torus=tuple(not b for b in torus[:1]) + torus[1:])
+        variants["extents differ"] = dict(a, data=np.swapaxes(data, 0, 1) if dims[0] != dims[1] else np.concatenate([data, data], axis=0))
+        if k >= 1:
+            variants["order differs"] = dict(a, data=data[..., 0])
+        for what, b in variants.items():
+            case = {"family": "eq", "D": D, "variant": what, "a": leaves_json([a])[0], "b": leaves_json([b])[0]}
+            ctx.case(("eq", D, what, data.tobytes().hex()[:48], parity, torus), what != "same",
+                     sample=case if (rep == 0 and what == "one entry differs") else None)
+            ctx.hist("extras", "eq:" + what)
+            A, B = make_gleaves(geom, jnp, D, [a, b])
+            real = bool(A == B)
+            model = bool(ctx.driver.call("c05.img_eq", d=D, a=case["a"], b=case["b"]))
+            if real != model:
+                ctx.violation("correspondence", "__eq__ differs from the model's exact equality", dict(case, code=real, model=model))
+            if real != (what == "same"):
+                ctx.violation("oracle", "__eq__ does not separate images that differ in " + what, case)
+            for g in (gs if (not quick or what in ("same", "one entry differs")) else ()):
+                gA, gB = (x.times_group_element(np.asarray(g)) for x in (A, B))
+                if bool(gA == gB) != real:
+                    ctx.violation("oracle", "(A == B) != (g.A == g.B)", dict(case, g=mat_list(g)))
+        ctx.case(("eq-other", D), False)
+        if (make_gleaves(geom, jnp, D, [a])[0] == 3) is not False:
+            ctx.violation("oracle", "__eq__ with a non-image is not False", {"D": D})
+
+    # --- normalize (float: 1e-5) ----------------------------------------------------------------
+    for rep in range(4 if quick else 30):
+        D = 2 if rep % 2 == 0 else 3
+        gs = group_subset(ctx, D)
+        dims = EXTRA_SHAPES[D][int(rng.integers(len(EXTRA_SHAPES[D])))]
+        k = int(rng.integers(0, 3))
+        parity = int(rng.integers(0, 2))
+        data = rng.integers(-4, 5, size=dims + (D,) * k) * (0 if rep == 1 else 1)
+        a = {"data": data, "parity": parity, "torus": (True,) * D}
+        case = {"family": "normalize", "D": D, "k": k, "parity": parity, "image": jarr(data)}
+        ctx.case(("normalize", D, k, parity, data.tobytes().hex()[:48]), bool(np.any(data != 0)))
+        ctx.hist("extras", "normalize")
+        A = make_gleaves(geom, jnp, D, [a])[0]
+        if quick:
+            gs = [gs[i] for i in rng.choice(len(gs), size=3, replace=False)]
+        nA = A.normalize()
+        mx = float(np.sqrt(np.max(np.sum(data.reshape(int(np.prod(dims)), -1).astype(np.float64) ** 2, axis=1))))
+        want = data / mx if mx > 1e-5 else data.astype(np.float64)
+        if (nA.k, nA.parity) != (k, parity) or np.max(np.abs(np.asarray(nA.data, dtype=np.float64) - want)) > 1e-5:
+            ctx.violation("oracle", "normalize is not the division by the largest pixel norm", case)
+        for g in gs:
+            lhs = A.times_group_element(np.asarray(g)).normalize()
+            rhs = refs.act(want, D, parity, g)
+            if (lhs.k, lhs.parity) != (k, parity) or lhs.data.shape != rhs.shape or \
+                    np.max(np.abs(np.asarray(lhs.data, dtype=np.float64) - rhs)) > 1e-5:
+                ctx.violation("oracle", "normalize(g . A) != g . normalize(A)", dict(case, g=mat_list(g)))
+
+    # --- tensor_name ----------------------------------------------------------------------------
+    for k in range(0, 5):
+        for parity in range(0, 4):
+            ctx.case(("tensor_name", k, parity), True)
+            real = geom.tensor_name(k, parity)
+            model = ctx.driver.call("c05.tensor_name", k=k, parity=parity)
+            if real != model:
+                ctx.violation("correspondence", "tensor_name differs from the model", {"k": k, "parity": parity, "code": real, "model": model})
+
+
 def run(ctx: Ctx):
     import jax.numpy as jnp
     import ginjax.geometric as geom
@@ -780,7 +1062,12 @@ def run(ctx: Ctx):
         "(d, shape, tree, result). get_contraction_indices: all (initial_k, final_k) of equal parity with "
         "0 <= final_k <= initial_k <= 6 (thorough 7), swappable in {(), ((0,1),), ((2,3),), ((0,1),(2,3)), ((1,0),), "
         "((0,1),(1,2)), ((3,0),(1,2))} (when the indices exist) + random sets of 1-3 pairs; non-trivial = at least "
-        "one pair is contracted." % max_depth
+        "one pair is contracted. Constructors and helpers outside the expression language (check_extras): "
+        "KroneckerDeltaSymbol.get / get_kronecker_delta_image for d in {2,3}, k in 2..4, N in {1,3} (d=2) / {2} (d=3) "
+        "(thorough 1..3); GeometricImage.fill / zeros on non-square extents with integer fill tensors of order 0..3 "
+        "(number and array form), parities 0..3, mixed flags; activation_function over identity / negate / cube / "
+        "square / relu / abs on integer scalar and pseudo-scalar images; __eq__ on equal images and images differing "
+        "in one entry / parity / flags / extents / order; normalize; tensor_name for k in 0..4, parity in 0..3." % max_depth
     )
     ctx.assumptions = [
         "integer-valued float32 leaves with bounded products make the implementation's arithmetic exact",
@@ -794,6 +1081,9 @@ def run(ctx: Ctx):
         "harness/refs.py reference action (validated against the Lean spec actSpec by check C02)",
         "get_contraction_indices: itertools.combinations, np.unique(axis=0), np.isin/np.where and in-place row "
         "assignment are modelled by combinations, uniqueRows, locsOf/restoreRow (GinjaxVerif/Model/C05Contr.lean)",
+        "jnp.stack(...).reshape of fill / get_kronecker_delta_image, jnp.zeros, function(self.data) and jnp.allclose "
+        "(exact part) are modelled by fillImg / kroneckerDelta / zerosImg / activationI / GImg.eqB "
+        "(GinjaxVerif/Model/C05Extras.lean); normalize is compared on the implementation only (float, 1e-5)",
         "convolution nodes: the Lean theorem takes the equivariance of convolution as hypothesis ConvHyp.hConv "
         "(property C01); on the implementation they are covered by the oracle like every other node",
     ]
@@ -801,6 +1091,7 @@ def run(ctx: Ctx):
     check_tables(ctx, geom)
     check_laws(ctx, geom, jnp, 40 if quick else 400)
     check_contraction_indices(ctx, geom)
+    check_extras(ctx, geom, jnp)
     wants = ["oddlc", "pseudoprod", "any", "oddlc", "conv", "any"]
     done = 0
     it = 0
